@@ -64,7 +64,9 @@ def tree_copy(lru_cached_parsing_func: Callable[[str], Tree]):
         tree_result: Tree = lru_cached_parsing_func(*args, **kwargs)
         cache_size_after_parsing = lru_cached_parsing_func.cache_info().currsize
         if cache_size_after_parsing == cache_size_before_parsing:
-            parsing_logger.log(_CACHE_LOG_LEVEL, "The parsed tree for '%s' has been loaded from the cache", args[0])
+            # the expression may have been passed as keyword argument
+            expression = args[0] if args else next(iter(kwargs.values()), None)
+            parsing_logger.log(_CACHE_LOG_LEVEL, "The parsed tree for '%s' has been loaded from the cache", expression)
         # lark's Tree.copy() is shallow: the children list would be shared with the cached tree
         return deepcopy(tree_result)
 
